@@ -37,6 +37,12 @@ type parser struct {
 	module *ast.Module
 	// module of the toplevel generic instantiation currently being parsed or nil
 	genericModule *ast.Module
+	// nesting depth of generic function instantiations this parser runs in
+	// used to stop unbounded recursive instantiation
+	instantiationDepth int
+	// set once the maximum nesting depth was exceeded, shared by all parsers of one nested instantiation
+	// makes all enclosing instantiations fail without retrying
+	instantiationOverflow *bool
 	// modules that were passed as environment, might not all be used
 	predefinedModules map[string]*ast.Module
 	// all found aliases (+ inbuild aliases)
